@@ -17,7 +17,7 @@
 (* to a recorded execution of the real library.  dv is the set of enabled  *)
 (* named deviations (known findings); {} is the specification proper.      *)
 (***************************************************************************)
-EXTENDS Syntax
+EXTENDS Plan
 
 CONSTANT Eps            \* the comparison tolerance, a rational
 
@@ -38,7 +38,7 @@ Admits(exp, obs) ==
 StEq(s1, s2) ==
   /\ s1.facts = s2.facts
   /\ DOMAIN s1.fl = DOMAIN s2.fl
-  /\ \A g \in DOMAIN s1.fl : REq(s1.fl[g], s2.fl[g])
+  /\ \A g \in DOMAIN s1.fl : s1.fl[g] = s2.fl[g]      \* rationals are normalised on both sides
 
 ----------------------------------------------------------------------------
 (* ParseDomain: a = [tree].  The stored value is the spec's own reading of *)
@@ -80,6 +80,26 @@ Apply_Exp(D, u, act, args, st, allow, skip, dv) ==
              ELSE LET s == Succ(a.eff, env, st, u, Eps, dv)
                   IN  IF ~s.ok THEN AnyOutcome
                       ELSE [any |-> FALSE, err |-> lenient, vals |-> {s.st}]
+
+----------------------------------------------------------------------------
+(* RunPlan: a = [D, u, plan, init, allow]: the trajectory the transition     *)
+(* function dictates (Plan!Run).  The first pre-state carries the header     *)
+(* ":init", every other state ":state".                                      *)
+
+RunPlan_Exp(D, u, plan, init, allow, dv) == Run(D, u, plan, init, allow, Eps, dv)
+
+\* obs: sequence of [pre, op, post, preHdr, postHdr]; judged against the steps
+\* the specification determines (all of them unless the run went into an open region)
+RunAdmits(exp, obs, nPlan) ==
+  /\ Len(obs) = nPlan
+  /\ \A i \in DOMAIN exp.steps :
+        /\ StEq(obs[i].pre, exp.steps[i].pre)
+        /\ StEq(obs[i].post, exp.steps[i].post)
+        /\ obs[i].op = exp.steps[i].op
+        /\ obs[i].preHdr = (IF i = 1 THEN ":init" ELSE ":state")
+        /\ obs[i].postHdr = ":state"
+  \* chained as values, whatever the specification leaves open
+  /\ \A i \in 1..(Len(obs) - 1) : StEq(obs[i + 1].pre, obs[i].post)
 
 ----------------------------------------------------------------------------
 (* ParseProblem: a = [D, tree].  A well-formed problem is returned with      *)
